@@ -92,8 +92,17 @@ def uniform_loss(attrs, shape, plain, total):
     return f
 
 
-def run_local(m, dom, tuples, total, oracle, iters, prior=None):
-    eng = m.LocalInference(dom, iters=iters, marginal_oracle=oracle)
+def run_local(m, dom, tuples, total, oracle, iters, prior=None, as_object=False):
+    if as_object:
+        # the oracle handed over as a ready-made object (constructed with its own default total): the estimator
+        # must give it the total of the estimate() call, exactly as it does for the oracle it builds from a name
+        cl_ = [tuple(t[3]) for t in tuples]
+        orc = (m.RegionGraph(dom, cl_, convex=(oracle == 'convex'), iters=1) if oracle in ('approx', 'convex')
+               else m.FactorGraph(dom, cl_, convex=(oracle == 'pairwise-convex'), iters=1))
+        orc.potentials = m.CliqueVector.zeros(dom, orc.cliques)
+        eng = m.LocalInference(dom, iters=iters, marginal_oracle=orc)
+    else:
+        eng = m.LocalInference(dom, iters=iters, marginal_oracle=oracle)
     if prior is not None:
         # the estimator object has a history: one (or a dozen) earlier estimate() calls on the same cliques with other answers
         for pr in (prior if isinstance(prior[0], list) else [prior]):
@@ -139,7 +148,10 @@ def run_case(case, ctx):
                 prior = [[(Q, np.asarray(y) * (0.5 + 0.1 * k_) + prng.normal(0, s_, size=np.asarray(y).shape), s_, p) for Q, y, s_, p in tuples] for k_ in range(12)]
                 ctx.tag('estimator_object_reused_12_times')
         try:
-            eng, model, seen = run_local(m, dom, tuples, case['total'], oracle, iters, prior)
+            as_object = prior is None and case['np_seed'] % 4 == 1
+            if as_object:
+                ctx.tag('ready_made_oracle_object')
+            eng, model, seen = run_local(m, dom, tuples, case['total'], oracle, iters, prior, as_object)
         except Exception as e:
             import traceback
             fu0 = uniform_loss(attrs, shape, plain, case['total']) if case['total'] is not None else None
